@@ -380,9 +380,20 @@ thread_local! {
 /// pass only through `log::error!`).
 struct CaptureLogger;
 
+thread_local! {
+    /// darklua's logging is verbose (trace level) for the simulated run on this thread
+    static TRACE_LOGS: std::cell::Cell<bool> = const { std::cell::Cell::new(false) };
+}
+
+/// Let `log_enabled!(Trace)` be true for darklua code running on this thread (some debug
+/// aids of darklua only act then); the records themselves are dropped.
+pub fn set_trace_logs(on: bool) {
+    TRACE_LOGS.with(|t| t.set(on));
+}
+
 impl log::Log for CaptureLogger {
     fn enabled(&self, metadata: &log::Metadata) -> bool {
-        metadata.level() <= log::Level::Error
+        metadata.level() <= log::Level::Error || TRACE_LOGS.with(|t| t.get())
     }
     fn log(&self, record: &log::Record) {
         if record.level() <= log::Level::Error {
@@ -397,7 +408,9 @@ static CAPTURE_LOGGER: CaptureLogger = CaptureLogger;
 
 pub fn install_capture_logger() {
     let _ = log::set_logger(&CAPTURE_LOGGER);
-    log::set_max_level(log::LevelFilter::Error);
+    // the level filter is process wide; whether anything below `error` is enabled is
+    // decided per thread by `TRACE_LOGS`
+    log::set_max_level(log::LevelFilter::Trace);
 }
 
 pub fn take_captured_errors() -> Vec<(String, String)> {
